@@ -169,7 +169,8 @@ def main(argv=None):
             continue
         r, p = spawn_workers(prop, tier, seed, 1 if a.replay else cfg.get('workers', nw), timeout,
                              replay=os.path.abspath(a.replay) if a.replay else None,
-                             pyflags=cfg.get('pyflags', ()), env_extra=cfg.get('env'))
+                             pyflags=cfg.get('pyflags', ()),
+                             env_extra=dict(cfg.get('env') or {}, VERIF_CFG=cfg.get('name', 'default')))
         for x in r:
             x.setdefault('hist', {})
             if cfg.get('name'):
